@@ -765,12 +765,26 @@ func runVF15(p *Prog, r *RuleRun) {
 				}
 				// (b) or a closure created in this block captures the removed segment and deletes/closes it
 				closureOK := false
+				closesAndDeletes := func(cf *ssa.Function) bool {
+					return p.reaches(cf, func(ci ssa.CallInstruction) bool { return eventName(ci) == "types.SegmentFiler.Delete" }) &&
+						p.reaches(cf, func(ci ssa.CallInstruction) bool { return eventName(ci) == "io.Closer.Close" })
+				}
 				for _, i2 := range b.Instrs {
-					if mc, ok := i2.(*ssa.MakeClosure); ok {
-						cf := mc.Fn.(*ssa.Function)
-						if p.reaches(cf, func(ci ssa.CallInstruction) bool { return eventName(ci) == "types.SegmentFiler.Delete" }) &&
-							p.reaches(cf, func(ci ssa.CallInstruction) bool { return eventName(ci) == "io.Closer.Close" }) {
+					switch x := i2.(type) {
+					case *ssa.MakeClosure:
+						if closesAndDeletes(x.Fn.(*ssa.Function)) {
 							closureOK = true
+						}
+					case *ssa.Call:
+						// a helper that builds the finalizer from the reader(s) and file(s) handed to it
+						callee := x.Call.StaticCallee()
+						if callee == nil || pkgRelOf(p, callee) != "" || callee.Signature.Results().Len() != 1 || callee.Signature.Results().At(0).Type().String() != "func()" {
+							continue
+						}
+						for _, af := range callee.AnonFuncs {
+							if closesAndDeletes(af) {
+								closureOK = true
+							}
 						}
 					}
 				}
